@@ -14,7 +14,7 @@ def Inv (st : SkipState) : Prop :=
 instance (st : SkipState) : Decidable (Inv st) := by unfold Inv; infer_instance
 
 /-- Commands that go through the filter or the steps (not directly to the state model). -/
-def Cmd.viaSteps (c : Cmd) : Prop := c.level ≠ .stateModel
+def Cmd.viaSteps (c : Cmd) : Prop := c.level ≠ .stateModel ∧ c.level ≠ .exoModel
 
 instance (c : Cmd) : Decidable c.viaSteps := by unfold Cmd.viaSteps; infer_instance
 
@@ -48,7 +48,8 @@ theorem skipCmd_inv (st : SkipState) (c : Cmd) (hc : c.viaSteps) (h : Inv st) :
   · exact filterSkip_inv st n on h
   · exact predictionSkip_inv st n on h
   · exact correctionSkip_inv st on h
-  · exact absurd rfl hc
+  · exact absurd rfl hc.1
+  · exact absurd rfl hc.2
 
 theorem run_inv (cs : List Cmd) : ∀ (st : SkipState), (∀ c ∈ cs, c.viaSteps) → Inv st → Inv (run st cs) := by
   induction cs with
@@ -97,5 +98,147 @@ theorem spec_run_hasExo (cs : List (StepName × Bool)) : ∀ s : Spec, (s.run cs
     simp only [Spec.run]
     rw [ih]
     cases n <;> simp [Spec.apply] <;> split <;> rfl
+
+/-! ### The (flags, belief) machine against the table of switches -/
+
+variable {β : Type}
+
+theorem predictBelief_spec (sem : Sem β) (k : PredKind) (s : Spec) (t : Nat) (b : β) :
+    predictBelief sem k s.flags t b = (s.predBehaviour k).act sem t b := by
+  obtain ⟨h, st, e, c⟩ := s
+  cases k <;> cases h <;> cases st <;> cases e <;> cases c <;> rfl
+
+theorem predObs_spec (s : Spec) (k : PredKind) : predObs k s.flags = s.predBehaviour k := by
+  obtain ⟨h, st, e, c⟩ := s
+  cases k <;> cases h <;> cases st <;> cases e <;> cases c <;> decide
+
+theorem correctBelief_spec (sem : Sem β) (s : Spec) (t : Nat) (b : β) :
+    correctBelief sem s.flags t b = if s.corr then b else sem.corr t b := by
+  obtain ⟨h, st, e, c⟩ := s
+  cases c <;> rfl
+
+/-- one operation: the concrete machine started in the image of a specification state ends in
+    the image of the specification's successor -/
+theorem stepOp_spec (sem : Sem β) (k : PredKind) (s : SpecSt β) (o : SOp) :
+    stepOp sem k s.toFilter o.toOp = (Spec.stepOp sem k s o).toFilter := by
+  cases o with
+  | cmd n on =>
+    simp only [SOp.toOp, stepOp, SpecSt.toFilter, Spec.stepOp, skipCmd, filterSkip_spec]
+  | predict =>
+    simp only [SOp.toOp, stepOp, SpecSt.toFilter, Spec.stepOp, predictBelief_spec]
+  | correct =>
+    simp only [SOp.toOp, stepOp, SpecSt.toFilter, Spec.stepOp, correctBelief_spec]
+  | handOver =>
+    simp only [SOp.toOp, stepOp, SpecSt.toFilter, Spec.stepOp, handOver]
+
+theorem runOps_spec (sem : Sem β) (k : PredKind) (ops : List SOp) : ∀ s : SpecSt β,
+    runOps sem k s.toFilter (ops.map SOp.toOp) = (Spec.runOps sem k s ops).toFilter := by
+  induction ops with
+  | nil => intro s; rfl
+  | cons o os ih =>
+    intro s
+    simp only [List.map_cons, runOps, Spec.runOps]
+    rw [stepOp_spec]
+    exact ih _
+
+theorem runOps_append (sem : Sem β) (k : PredKind) (a b : List Op) : ∀ s : FilterSt β,
+    runOps sem k s (a ++ b) = runOps sem k (runOps sem k s a) b := by
+  induction a with
+  | nil => intro s; rfl
+  | cons o os ih => intro s; simp only [List.cons_append, runOps]; exact ih _
+
+theorem specRunOps_append (sem : Sem β) (k : PredKind) (a b : List SOp) : ∀ s : SpecSt β,
+    Spec.runOps sem k s (a ++ b) = Spec.runOps sem k (Spec.runOps sem k s a) b := by
+  induction a with
+  | nil => intro s; rfl
+  | cons o os ih => intro s; simp only [List.cons_append, Spec.runOps]; exact ih _
+
+theorem specRunOps_hasExo (sem : Sem β) (k : PredKind) (ops : List SOp) : ∀ s : SpecSt β,
+    (Spec.runOps sem k s ops).spec.hasExo = s.spec.hasExo := by
+  induction ops with
+  | nil => intro s; rfl
+  | cons o os ih =>
+    intro s
+    simp only [Spec.runOps]
+    rw [ih]
+    cases o with
+    | cmd n on =>
+      have := spec_run_hasExo [(n, on)] s.spec
+      simpa [Spec.run, Spec.stepOp] using this
+    | predict => rfl
+    | correct => rfl
+    | handOver => rfl
+
+/-- an operation that is not a step -/
+def Op.isStep : Op → Bool
+  | .predict => true
+  | .correct => true
+  | _ => false
+
+theorem runOps_no_step (sem : Sem β) (k : PredKind) (ops : List Op) : ∀ s : FilterSt β,
+    (∀ o ∈ ops, o.isStep = false) →
+    (runOps sem k s ops).belief = s.belief ∧ (runOps sem k s ops).clock = s.clock := by
+  induction ops with
+  | nil => intro s _; exact ⟨rfl, rfl⟩
+  | cons o os ih =>
+    intro s h
+    have ho := h o List.mem_cons_self
+    have := ih (stepOp sem k s o) (fun o' ho' => h o' (List.mem_cons_of_mem _ ho'))
+    simp only [runOps]
+    cases o <;> first | exact this | (simp [Op.isStep] at ho)
+
+/-- the commands of a specification-level history given as a block -/
+def cmdBlock (cs : List (StepName × Bool)) : List SOp := cs.map fun c => .cmd c.1 c.2
+
+theorem specRunOps_cmdBlock (sem : Sem β) (k : PredKind) (cs : List (StepName × Bool)) : ∀ s : SpecSt β,
+    Spec.runOps sem k s (cmdBlock cs) = { s with spec := s.spec.run cs } := by
+  induction cs with
+  | nil => intro s; rfl
+  | cons c cs ih =>
+    intro s
+    obtain ⟨n, on⟩ := c
+    simp only [cmdBlock, List.map_cons, Spec.runOps, Spec.stepOp, Spec.run]
+    exact ih _
+
+/-- every command in the history switches something *on* (or is not understood) -/
+def SOp.onOnly : SOp → Prop
+  | .cmd _ on => on = true
+  | _ => True
+
+theorem apply_on_keeps_skipped (s : Spec) (n : StepName) (hp : s.predSkipped = true) (hc : s.corr = true) :
+    (s.apply n true).predSkipped = true ∧ (s.apply n true).corr = true := by
+  obtain ⟨h, st, e, c⟩ := s
+  cases n <;> cases h <;> cases st <;> cases e <;> cases c <;> first | decide | (revert hp hc; decide)
+
+theorem predBehaviour_skipped (s : Spec) (k : PredKind) (hp : s.predSkipped = true) :
+    s.predBehaviour k = .identity := by
+  obtain ⟨h, st, e, c⟩ := s
+  cases k <;> cases h <;> cases st <;> cases e <;> cases c <;> first | decide | (revert hp; decide)
+
+theorem specRunOps_all_skipped (sem : Sem β) (k : PredKind) (ops : List SOp) : ∀ s : SpecSt β,
+    s.spec.predSkipped = true → s.spec.corr = true → (∀ o ∈ ops, o.onOnly) →
+    (Spec.runOps sem k s ops).belief = s.belief := by
+  induction ops with
+  | nil => intro s _ _ _; rfl
+  | cons o os ih =>
+    intro s hp hc h
+    have ho := h o List.mem_cons_self
+    have hrest : ∀ o' ∈ os, o'.onOnly := fun o' ho' => h o' (List.mem_cons_of_mem _ ho')
+    simp only [Spec.runOps]
+    cases o with
+    | cmd n on =>
+      have hon : on = true := ho
+      subst hon
+      have hk := apply_on_keeps_skipped s.spec n hp hc
+      exact ih _ hk.1 hk.2 hrest
+    | predict =>
+      have := ih (Spec.stepOp sem k s .predict) hp hc hrest
+      rw [this]
+      simp only [Spec.stepOp, predBehaviour_skipped s.spec k hp, Obs.act]
+    | correct =>
+      have := ih (Spec.stepOp sem k s .correct) hp hc hrest
+      rw [this]
+      simp only [Spec.stepOp, hc, if_true]
+    | handOver => exact ih _ hp hc hrest
 
 end BFL.Skip
